@@ -1,6 +1,7 @@
 package main
 
 import (
+	"bytes"
 	"context"
 	"encoding/json"
 	"errors"
@@ -31,6 +32,7 @@ type Req struct {
 	Subs   []SubSpec `json:"subs,omitempty"`
 	Fs     []string  `json:"fs,omitempty"`
 	H      int       `json:"h,omitempty"`
+	Size   int       `json:"size,omitempty"` // pub: payload padded to this many bytes
 	Swap   int       `json:"swap,omitempty"` // handle: this handler, when it receives its first message, registers handler Swap from inside the callback
 	At     string    `json:"at"`
 	Retain bool      `json:"retain,omitempty"`
@@ -56,6 +58,9 @@ type RetryOpts struct {
 	DirectQoS0          bool   `json:"directQoS0,omitempty"`
 	HookEvents          bool   `json:"hookEvents,omitempty"`
 	GrantCap            *int   `json:"grantCap,omitempty"`       // the broker grants at most this QoS in SUBACK
+	GrantCode           *int   `json:"grantCode,omitempty"`      // every SUBACK return code is this byte
+	MaxPayload          int    `json:"maxPayload,omitempty"`     // MaxPayloadLen of every base client
+	KeepAliveSec        int    `json:"keepAliveSec,omitempty"`   // ConnectOption WithKeepAlive
 	PromptAcks          bool   `json:"promptAcks,omitempty"`     // Write returns only after the client's reader consumed the broker's answer
 	HoldLoopWakeMs      int    `json:"holdLoopWakeMs,omitempty"` // delay the reconnect loop when it wakes up (hook reconnLoopWake): the keep-alive goroutine goes first
 	SampleAfterMs       int    `json:"sampleAfterMs,omitempty"`
@@ -108,6 +113,10 @@ func ms(n, def int) time.Duration {
 func runRetry(sc *RetryScenario) *RetryResult {
 	w := netsim.NewWorld(sc.Plan)
 	w.DeliverOnRel = sc.Opts.DeliverOnRel
+	if sc.Opts.GrantCode != nil {
+		w.GrantCode = *sc.Opts.GrantCode
+	}
+	w.MaxPayloadLen = sc.Opts.MaxPayload
 	if sc.Opts.GrantCap != nil {
 		w.GrantCap = *sc.Opts.GrantCap
 	}
@@ -231,6 +240,11 @@ func runRetry(sc *RetryScenario) *RetryResult {
 				default:
 				}
 				// no recover here: a panic in a request submitted while another goroutine disconnects is the library's
+				if sc.Opts.DirectQoS0 && rc.Client() == nil {
+					// direct publishing has no client to write on yet
+					time.Sleep(50 * time.Microsecond)
+					continue
+				}
 				if (n+k)%4 == 3 {
 					cli.Unsubscribe(ctx, "hammer/"+strconv.Itoa(k))
 				} else {
@@ -303,7 +317,7 @@ func runRetry(sc *RetryScenario) *RetryResult {
 				defer close(connDone)
 				nopt := 0
 				var optMu sync.Mutex
-				copts := []mqtt.ConnectOption{mqtt.WithCleanSession(sc.Opts.CleanSession), func(o *mqtt.ConnectOptions) error {
+				copts := []mqtt.ConnectOption{mqtt.WithCleanSession(sc.Opts.CleanSession), mqtt.WithKeepAlive(uint16(sc.Opts.KeepAliveSec)), func(o *mqtt.ConnectOptions) error {
 					optMu.Lock()
 					nopt++
 					n := nopt
@@ -333,6 +347,9 @@ func runRetry(sc *RetryScenario) *RetryResult {
 		case "pub":
 			nreq++
 			m := &mqtt.Message{Topic: "t", QoS: mqtt.QoS(r.Q), Payload: netsim.PayloadOf(nreq), Retain: r.Retain, ID: uint16(r.PID)}
+			if r.Size > len(m.Payload)+1 {
+				m.Payload = append(append(m.Payload, ':'), bytes.Repeat([]byte{'.'}, r.Size-len(m.Payload)-1)...)
+			}
 			if sc.Opts.ReuseMessage {
 				// only sound between completed publishes (scenarios place these at "idle")
 				reused.Topic, reused.QoS, reused.Payload, reused.Retain, reused.ID = m.Topic, m.QoS, m.Payload, m.Retain, 0
@@ -623,7 +640,7 @@ func runRetry(sc *RetryScenario) *RetryResult {
 	cfg := map[string]interface{}{"deliverOnRel": sc.Opts.DeliverOnRel, "alwaysResub": sc.Opts.AlwaysResub,
 		"respTimeout": sc.Opts.RespTimeoutMs > 0, "autoRelease": true, "directQoS0": sc.Opts.DirectQoS0, "mode": "reconn",
 		"reconnBaseUs": ms(sc.Opts.ReconnBaseMs, 2).Microseconds(), "reconnMaxUs": ms(sc.Opts.ReconnMaxMs, 10).Microseconds(),
-		"noReestablish": sc.Opts.NoReestablish || disconnected, "hammer": sc.Opts.Hammer}
+		"noReestablish": sc.Opts.NoReestablish || disconnected, "hammer": sc.Opts.Hammer, "maxPayload": sc.Opts.MaxPayload}
 	return &RetryResult{ID: sc.ID, Cfg: cfg, Evs: rec.Snapshot(), Info: info}
 }
 
